@@ -928,3 +928,42 @@ impl DnsService {
         })
     }
 }
+
+/// Verification hooks: add-only wrappers around crate-private DNS internals.
+#[cfg(feature = "verif-hooks")]
+pub mod verif {
+    pub use super::bucket::{Clock, GenericTokenBucket};
+    pub use super::cache::VerifCache;
+
+    pub fn parse(buf: &[u8]) -> Result<super::dnspkt::DNSPkt, String> {
+        super::parse::PktParser::new(buf).get_dns()
+    }
+
+    pub fn cookie_make(msg: &super::DnsMessage, client: &[u8], key: &[u8]) -> Vec<u8> {
+        use hmac::Mac as _;
+        msg.calculate_cookie(client, key)
+            .finalize()
+            .into_bytes()
+            .to_vec()
+    }
+
+    /// 0 = no server cookie in the query, 1 = bad, 2 = good.
+    pub fn cookie_validate(msg: &super::DnsMessage, key: &[u8], oldkey: &[u8]) -> u8 {
+        match msg.validate_cookie_keys(key, oldkey) {
+            super::CookieStatus::Missing => 0,
+            super::CookieStatus::Bad => 1,
+            super::CookieStatus::Good => 2,
+        }
+    }
+
+    pub async fn create_in_reply(
+        msg: &super::DnsMessage,
+        outr: &super::dnspkt::DNSPkt,
+    ) -> super::dnspkt::DNSPkt {
+        super::DnsListenerHandler::create_in_reply(msg, outr).await
+    }
+
+    pub fn prepare_to_send(pkt: &super::dnspkt::DNSPkt, size: usize) -> Vec<u8> {
+        super::DnsListenerHandler::prepare_to_send(pkt, size)
+    }
+}
